@@ -823,7 +823,7 @@ func (c *converter) addEndLine(line string) {
 }
 
 func (c *converter) mustCurrentForLabel() string {
-	return forLabel(c.forCounter - 1)
+	return c.fors[len(c.fors)-1].label
 }
 
 func (c *converter) mustCurrentForVar() string {
@@ -885,7 +885,7 @@ func (c *converter) popEndLabel() string {
 }
 
 func (c *converter) nextEndLabel() string {
-	c.endLabels = append(c.endLabels, fmt.Sprintf(":_e%d", len(c.endLabels)))
+	c.endLabels = append(c.endLabels, fmt.Sprintf(":_e%d", c.forCounter-1))
 	return c.mustCurrentEndLabel()
 }
 
